@@ -1,8 +1,10 @@
-(* C17 -- A ClusterCIDR applies to exactly the nodes its selector describes (stage 1: the
-   print/parse round trip of apimachinery's labels package is the named hypothesis RT of the
-   section; it is exercised on every run by the correspondence check, which compares the real
-   nodeSelectorKey + matchCIDRLabels with [match_reqs] applied to the selector's OWN requirements). *)
-From NIPAM Require Import Sel Alloc Sel_proofs.
+(* C17 -- A ClusterCIDR applies to exactly the nodes its selector describes.
+   Stage 1 (the C17_partial_* theorems): for ANY printer and parser with the round-trip property RT.
+   Stage 2: RT is a theorem of the model of apimachinery's printer, lexer and parser ([Lbl.v], proofs in [Lbl_proofs.v]); the
+   model is run against the real library on every run (labels.Parse on arbitrary texts, nodeSelectorKey byte for byte), and the
+   correspondence check still compares the real nodeSelectorKey + matchCIDRLabels with [match_reqs] applied to the
+   selector's OWN requirements. *)
+From NIPAM Require Import Sel Lbl Alloc Sel_proofs Lbl_proofs.
 Open Scope N_scope.
 
 Theorem C17_match_iff_all_requirements_hold :
@@ -26,6 +28,49 @@ Theorem C17_partial_same_key_same_meaning :
       forall ls, match_reqs ls rs1 = match_reqs ls rs2.
 Proof. exact same_key_same_meaning. Qed.
 Print Assumptions C17_partial_same_key_same_meaning.
+
+(* ---- stage 2: no hypothesis ---- *)
+(* every selector whose requirements labels.NewRequirement accepts is printed to a text that labels.Parse reads back with the
+   same meaning (same verdict and same number of satisfied requirements for every label set) -- or, when one requirement is
+   In / NotIn over an odd number (three or more) of values that are all the empty string, to a text that is not read back at all *)
+Theorem C17_print_parse_round_trip :
+  forall rs, forallb new_req_ok rs = true ->
+    if existsb bad_req rs then sel_parse (sel_string rs) = None
+    else exists rs', sel_parse (sel_string rs) = Some rs' /\ forall ls, match_reqs ls rs' = match_reqs ls rs.
+Proof. exact round_trip. Qed.
+Print Assumptions C17_print_parse_round_trip.
+
+(* nodeSelectorKey files a ClusterCIDR under a key exactly when its selector is representable *)
+Theorem C17_key_exactly_for_representable_selectors :
+  forall rs k, selector_key rs = Some k <-> forallb new_req_ok rs = true /\ existsb bad_req rs = false /\ k = sel_string rs.
+Proof. exact selector_key_some. Qed.
+Print Assumptions C17_key_exactly_for_representable_selectors.
+
+(* a ClusterCIDR filed under the key of its own selector is considered for a node (matchCIDRLabels on the key says "labels
+   match") exactly when every requirement of the selector holds of the node's labels; matchCIDRLabels never fails on such a key *)
+Theorem C17_considered_iff_selector_holds :
+  forall rs k ls, selector_key rs = Some k ->
+    exists verdict, match_key ls k = Some verdict /\ (fst verdict = true <-> forallb (req_matches ls) rs = true) /\
+                    snd verdict = N.of_nat (length (filter (req_matches ls) rs)).
+Proof.
+  intros rs k ls H. exists (match_reqs ls rs). split; [exact (match_key_of_selector_key rs k H ls)|]. split; [apply match_reqs_all|reflexivity].
+Qed.
+Print Assumptions C17_considered_iff_selector_holds.
+
+(* two selectors filed under the same key mean the same: no ClusterCIDR is found under a selector with a different meaning *)
+Theorem C17_same_key_same_meaning :
+  forall rs1 rs2 k, selector_key rs1 = Some k -> selector_key rs2 = Some k -> forall ls, match_reqs ls rs1 = match_reqs ls rs2.
+Proof. exact same_key_same_meaning_lbl. Qed.
+Print Assumptions C17_same_key_same_meaning.
+
+(* the selector D23 is about is not read back, and gets no key (since b13dc0f) *)
+Example C17_D23_selector_gets_no_key :
+  new_req_ok (mkReq [122] OpNotIn [[]; []; []]) = true /\ parse (sel_string [mkReq [122] OpNotIn [[]; []; []]]) = None /\
+  selector_key [mkReq [122] OpNotIn [[]; []; []]] = None.
+Proof. exact d23_not_read_back. Qed.
+Example C17_round_trip_nonvacuous :
+  selector_key [mkReq [122] OpIn [[98]; []; [97]]; mkReq kw_in OpNotIn [kw_in]; mkReq [97] OpGt [[53]]; mkReq [98] OpDoesNotExist []] <> None.
+Proof. exact round_trip_nonvacuous. Qed.
 
 Theorem C17_unrepresentable_selector_rejected :
   forall m o term boot out, o_selkey o = None -> create_cluster_cidr m o term boot out = (m, Err ESelector, []).
